@@ -755,4 +755,14 @@ example : ∃ (q : Int) (cm uc : Nat) (avail : BitVec 64), Pow.availablePlasma q
 example : ∃ a : Int, Nat.log2 a.natAbs + 1 < two63 ∧ Translated.accountBlock_amountBounds a = .exit 1 :=
   ⟨2 ^ 255, by decide, by decide⟩
 
+/-- C05: `electionAlgorithm.findSeed` = `int64(height)` -/
+theorem findSeed_translation_refines_model (h : BitVec 64) :
+    (Translated.findSeed h).toInt = Consensus.findSeed h.toNat := by
+  unfold Translated.findSeed Consensus.findSeed; rw [toInt64_toNat]
+
+example : ∃ (c : EpochCursor.Cfg) (cursor : Int) (e : BitVec 64), c.rtl = Gen.RewardTimeLimit ∧
+    e.toInt = EpochCursor.epochEnd c (cursor + 1) ∧ e.toInt + Gen.RewardTimeLimit < (two63 : Int) :=
+  ⟨{ genesis := 0, epochSec := 86400, rtl := 3600, updMin := 0, maxBlocks := 0, epochSec_pos := by decide }, 0, 172800#64,
+    by decide⟩
+
 end ZV.Translated
